@@ -940,7 +940,13 @@ def gen_hashfile_case(rng, thorough=False):
 
 
 HF_HEADER = ("From Coq Require Import ZArith List.\nImport ListNotations.\n"
-             "From Verif Require Import Model.C17.\n")
+             "From Verif Require Import Model.C17.\nOpen Scope Z_scope.\n"
+             "Definition mkh (maxsize : Z) (ops : list (Z * Z * Z * Z * Z)) := "
+             "(maxsize, ops).\n"
+             "Definition mkl (ro ml n : Z) (bad : list Z) (ops : list (Z * Z)) := "
+             "(ro, ml, n, bad, ops).\n"
+             "Definition mko (ro reuse : Z) (data : list Z) "
+             "(ops : list (Z * Z * Z * Z * list Z)) := (ro, reuse, data, ops).\n")
 
 
 def run_hashfile_case(case, scratch):
@@ -1046,7 +1052,7 @@ def run_hashfile_case(case, scratch):
                     HF_VARIANTS[v][1], cur[pi], bad, " [cache hit]" if hit else "")
     if hasattr(hashfile, "cache_clear"):
         hashfile.cache_clear()
-    render = "(100, %s)" % common.clist(rops)
+    render = "mkh 100 %s" % common.clist(rops)
     return dict(flat=flat, render=render, fail=fail, bumps=bumps,
                 nontrivial=hits > 0 and misses > 0, hits=hits, misses=misses)
 
@@ -1185,8 +1191,8 @@ def run_lcl_case(case):
             ok = mutate_in_place(outs[j]) if j < len(outs) else 0
             rops.append("(1, %d)" % j)
             flat.extend([5, ok, 0])
-    render = "(1, %d, %d, %s, %s)" % (case["maxev"], n, common.zlist(bad),
-                                      common.clist(rops))
+    render = "mkl 1 %d %d %s %s" % (case["maxev"], n, common.zlist(bad),
+                                    common.clist(rops))
     return dict(flat=flat, render=render, fail=fail,
                 nontrivial=hits > 0 and misses > 0)
 
@@ -1389,7 +1395,7 @@ def run_obj_checks(run, nworlds):
                 ops = gen_obj_ops(run.rng, len(data8))
                 case = dict(kind="obj", obj=kind, feat=feat, data8=data8, ops=ops)
                 res = run_obj_ops(obj, data8, ops)
-                res["render"] = "(1, %d, %s, %s)" % (
+                res["render"] = "mko 1 %d %s %s" % (
                     0 if kind == "basin" else 1, common.zlist(data8),
                     common.clist(res["rops"]))
                 results.append((case, res))
@@ -1432,8 +1438,8 @@ def replay_obj_case(case, scratch):
                 ch.rejuvenate()
             obj = ch["deform"]
     res = run_obj_ops(obj, case["data8"], case["ops"])
-    res["render"] = "(1, 1, %s, %s)" % (common.zlist(case["data8"]),
-                                        common.clist(res["rops"]))
+    res["render"] = "mko 1 1 %s %s" % (common.zlist(case["data8"]),
+                                       common.clist(res["rops"]))
     return res
 
 
